@@ -12,10 +12,13 @@ from ..core import AnalysisError, finish, unparse
 from ..constfold import Folder
 from ..bits import provenance, parse_format
 from ..dataflow import Flow, chain, call_name
+from ..absint import Interp
+from ..poly import le, lt, eq
 from ..util import calls_in, qual, formals, returns_of, raises_of, \
     raise_name, has_fact, bind
 from ..terms import Terms, V, match, show, lookup, presence, strip_new, \
-    alternatives, subterms, owner_terms, is_none
+    alternatives, subterms, owner_terms, is_none, reify, mk_cmp, \
+    bit_test
 
 MC = "rig.machine_control.machine_controller"
 CTRL = MC + ":MachineController"
@@ -384,101 +387,145 @@ def _inside(node, anc):
     return False
 
 
+def _P(name):
+    return ("param", name)
+
+
+def _argterms(T, call, callee, skip_self=True):
+    b = bind(call, callee, skip_self)
+    n = T.cfg.node_containing(call)
+    return {k: T.term(v, n) for k, v in b.items()
+            if isinstance(v, ast.AST)}
+
+
+def _send_terms(program, T, call):
+    """Argument terms of ``self._send_scp(x, y, p, cmd, arg1, ...)`` under the
+    names of SCPConnection.send_scp's formals (which receives them after the
+    buffer size)."""
+    conn = program.get("rig.machine_control.scp_connection:"
+                       "SCPConnection.send_scp")
+    names = formals(conn)[2:]          # self, buffer_size, x, y, p, cmd ...
+    n = T.cfg.node_containing(call)
+    out = {}
+    for nm, a in zip(names, call.args):
+        if isinstance(a, ast.Starred):
+            break
+        out[nm] = T.term(a, n)
+    for k in call.keywords:
+        if k.arg:
+            out[k.arg] = T.term(k.value, n)
+    return out
+
+
+def _wide(piece, bits):
+    """The field keeps at least ``bits`` low bits of its source."""
+    return piece.n is None or piece.n >= bits
+
+
+def _layout(folder, env, fn, term):
+    return provenance(reify(term), lambda e: _fold_int(folder, env, fn, e))
+
+
 def r2_order(program, folder, rep):
     fn = program.get(CTRL + ".load_routing_table_entries")
     inst = qual(fn)
-    fl = Flow(fn)
-    cfg = fl.cfg
+    T = Terms(fn)
+    cfg = T.cfg
     env = folder.module_env(MC)
-    sends = calls_in(fn, "_send_scp")
+    ps = formals(fn)          # self, entries, x, y, app_id
     alloc = load = None
-    for c in sends:
-        cmd = unparse(c.args[3]) if len(c.args) > 3 else ""
-        if cmd.endswith("alloc_free"):
+    for c in calls_in(fn, "_send_scp"):
+        cmd = _send_terms(program, T, c).get("cmd", ("?",))
+        if cmd[0] == "attr" and cmd[2] == "alloc_free":
             alloc = c
-        if cmd.endswith("SCPCommands.router"):
+        if cmd[0] == "attr" and cmd[2] == "router":
             load = c
-    writes = calls_in(fn, "write")
+    writes = [c for c in calls_in(fn, "write")
+              if chain(c.func.value) == "self"]
     if alloc is None or load is None or len(writes) != 1:
         raise AnalysisError("load_routing_table_entries: commands not found")
+    A, L = _send_terms(program, T, alloc), _send_terms(program, T, load)
+    W = _argterms(T, writes[0], program.get(CTRL + ".write"))
     na, nl, nw = [cfg.node_containing(c) for c in (alloc, load, writes[0])]
     rep.check(cfg.dominates(na, nw) and cfg.dominates(nw, nl) and
               not cfg.reaches(nl, nw), "C10-R2", inst,
               "allocate, then write the staging buffer, then issue the "
               "router load", construct="load order", node=fn)
+    BASE = ("attr", T.term(alloc, na), "arg1")
     rs = [r for r in raises_of(fn) if raise_name(r) == "SpiNNakerRouterError"]
     ok = False
-    base = None
+    zero = mk_cmp("Eq", BASE, ("const", 0))
     if len(rs) == 1:
         rn = cfg.node_of(rs[0])
-        for c, p, a in fl.facts(rn):
-            if p and isinstance(c, ast.Compare) and \
-                    isinstance(c.ops[0], ast.Eq) and \
-                    unparse(c.comparators[0]) == "0":
-                base = chain(c.left)
-                gate = [n for n in cfg.nodes if n.kind == "assume" and
-                        n.ast is c and not n.polarity]
-                ok = bool(gate) and cfg.dominates(gate[0], nw) and \
-                    cfg.dominates(gate[0], nl) and cfg.dominates(na, rn)
-    rep.check(ok, "C10-R2", inst, "a zero base (allocation failed) raises "
-              "SpiNNakerRouterError before anything is written or loaded",
+        ok = (zero, True) in T.all_facts(rn) and cfg.dominates(na, rn)
+        gates = [n for n in cfg.nodes if n.kind == "assume" and
+                 T.cond(n.ast, n, n.polarity) == (zero, False)]
+        ok = ok and any(cfg.dominates(g, nw) and cfg.dominates(g, nl)
+                        for g in gates)
+    rep.check(ok, "C10-R2", inst, "a zero base (arg1 of the allocation "
+              "reply: allocation failed) raises SpiNNakerRouterError before "
+              "anything is written or loaded",
               construct="allocation failure", node=fn)
-    okb = False
-    if base:
-        ds = fl.reaching(base, nl)
-        if len(ds) == 1 and ds[0].mode == "assign":
-            v = ds[0].value
-            okb = isinstance(v, ast.Attribute) and v.attr == "arg1"
-            rv = chain(v.value)
-            rd = fl.reaching(rv, ds[0].node)
-            okb = okb and len(rd) == 1 and rd[0].value is alloc
-    rep.check(okb, "C10-R2", inst, "the base is arg1 of the allocation "
-              "reply", construct="base from reply", node=fn)
-    # alloc arguments: app_id << 8 | alloc_rtr, count
-    const_of = lambda e: _fold_int(folder, env, fn, e)   # noqa
-    lay = provenance(alloc.args[4], const_of)
-    ps = formals(fn)
-    ok1 = [(p.src, p.dst_lo) for p in lay.pieces] == [(ps[4], 8)] and \
+    rep.check(L.get("arg3") == BASE, "C10-R2", inst, "the base given to the "
+              "router load is arg1 of the allocation reply",
+              construct="base from reply", node=fn)
+    # command words
+    COUNT = ("call", ("global", "len"), (_P(ps[1]),), ())
+    lay = _layout(folder, env, fn, A["arg1"])
+    ok1 = [(p.src, p.dst_lo, p.src_lo) for p in lay.pieces] == [
+        (ps[4], 8, 0)] and _wide(lay.pieces[0], 8) and \
         lay.const == folder.name(CONSTS, "AllocOperations").members[
-            "alloc_rtr"].value
-    cnt = chain(alloc.args[5]) if len(alloc.args) > 5 else None
-    cd = fl.reaching(cnt, na) if cnt else []
-    ok1 = ok1 and len(cd) == 1 and unparse(cd[0].value) == "len(%s)" % ps[1]
+            "alloc_rtr"].value and A.get("arg2") == COUNT
     rep.check(ok1, "C10-R3", inst, "allocation command: app_id << 8 | "
               "alloc_rtr, with the number of entries",
               construct="alloc word %r" % (lay,), node=alloc)
-    lay = provenance(load.args[4], const_of)
-    got = sorted((p.src, p.dst_lo) for p in lay.pieces)
-    ok2 = got == sorted([(cnt, 16), (ps[4], 8)]) and \
+    lay = _layout(folder, env, fn, L["arg1"])
+    got = sorted((p.src, p.dst_lo, p.src_lo) for p in lay.pieces)
+    width = {16: 16, 8: 8}
+    ok2 = got == sorted([(unparse(reify(COUNT)), 16, 0), (ps[4], 8, 0)]) \
+        and all(_wide(p, width[p.dst_lo]) for p in lay.pieces) and \
         lay.const == folder.name(CONSTS, "RouterOperations").members[
             "load"].value
     rep.check(ok2, "C10-R3", inst, "load command word: count << 16 | app_id "
               "<< 8 | load", construct="load word %r" % (lay,), node=load)
-    ok3 = len(load.args) >= 7 and chain(load.args[6]) == base
-    bufn = chain(load.args[5]) if len(load.args) > 5 else None
-    ok3 = ok3 and bufn is not None and chain(writes[0].args[0]) == bufn
-    bd = fl.reaching(bufn, nl) if bufn else []
-    ok3 = ok3 and len(bd) == 1 and unparse(bd[0].value) == \
-        "self.read_struct_field('sv', 'sdram_sys', %s, %s)" % (ps[2], ps[3])
+    rsf = program.get(CTRL + ".read_struct_field")
+    buf = L.get("arg2")
+    ok3 = buf is not None and buf == W.get("address")
+    if ok3:
+        bc = [c for c in calls_in(fn, "read_struct_field")
+              if T.term(c) == buf]
+        ok3 = len(bc) == 1
+        if ok3:
+            B = _argterms(T, bc[0], rsf)
+            ok3 = B.get("struct_name") == ("const", "sv") and \
+                B.get("field_name") == ("const", "sdram_sys") and \
+                B.get("x") == _P(ps[2]) and B.get("y") == _P(ps[3])
     rep.check(ok3, "C10-R3", inst, "arg2 = the staging buffer written "
               "(sv.sdram_sys of that chip), arg3 = the allocated base",
               construct="load arguments", node=load)
-    # addressing
-    for c in (alloc, load):
-        rep.check([unparse(a) for a in c.args[:3]] == [ps[2], ps[3], "0"],
+    for c, Bd in ((alloc, A), (load, L)):
+        rep.check(Bd.get("x") == _P(ps[2]) and Bd.get("y") == _P(ps[3]) and
+                  Bd.get("p") == ("const", 0),
                   "C10-R2", inst, "router commands go to core 0 of the chip "
                   "named by the caller", construct="router command target",
                   node=c)
-    rep.check([chain(a) for a in writes[0].args[2:4]] == [ps[2], ps[3]],
+    rep.check(W.get("x") == _P(ps[2]) and W.get("y") == _P(ps[3]),
               "C10-R2", inst, "the staging buffer is written on that chip",
               construct="staging write target", node=writes[0])
     lt = program.get(CTRL + ".load_routing_tables")
-    t = unparse(lt)
-    rep.check("self.load_routing_table_entries(table, x=x, y=y, "
-              "app_id=app_id)" in t and
-              "for (x, y), table in iteritems(routing_tables)" in t,
-              "C10-R2", qual(lt), "each chip's table is loaded on that chip "
-              "under the caller's app id", construct="per-chip load",
+    TL = Terms(lt)
+    lc = calls_in(lt, "load_routing_table_entries")
+    okl = len(lc) == 1
+    if okl:
+        B = _argterms(TL, lc[0], fn)
+        lps = formals(lt)          # self, routing_tables, app_id
+        E = ("elem", ("items", _P(lps[1])))
+        okl = B.get("entries") == ("comp", E, 1) and \
+            B.get("x") == ("comp", ("comp", E, 0), 0) and \
+            B.get("y") == ("comp", ("comp", E, 0), 1) and \
+            B.get("app_id") == _P(lps[2])
+    rep.check(okl, "C10-R2", qual(lt), "each chip's table is loaded on that "
+              "chip under the caller's app id", construct="per-chip load",
               node=lt)
     return writes[0]
 
@@ -495,11 +542,19 @@ def _fold_int(folder, env, fn, e):
     return v
 
 
+def _fold_any(folder, env, fn, e):
+    try:
+        return folder.eval(e, env, fn._module)
+    except AnalysisError:
+        return None
+
+
 def r3_layout(program, folder, rep, write_call):
     fn = program.get(CTRL + ".load_routing_table_entries")
     inst = qual(fn)
-    fl = Flow(fn)
+    T = Terms(fn)
     env = folder.module_env(MC)
+    ps = formals(fn)
     fmt = folder.name(CONSTS, "RTE_PACK_STRING")
     endian, slots, size = parse_format(fmt)
     packs = calls_in(fn, "pack_into")
@@ -507,124 +562,132 @@ def r3_layout(program, folder, rep, write_call):
         raise AnalysisError("load_routing_table_entries: pack_into")
     pk = packs[0]
     a = pk.args
-    okf = unparse(a[0]) == "consts.RTE_PACK_STRING"
-    data = chain(a[1])
+    node = T.cfg.node_containing(pk)
+    okf = _fold_any(folder, env, fn, reify(T.term(a[0], node))) == fmt
+    ENTRIES = _P(ps[1])
+    vals = [T.term(v, node) for v in a[3:]]
+    ENTRY = ("elem", ENTRIES)
     lp = pk._parent
     while lp is not None and not isinstance(lp, ast.For):
         lp = lp._parent
-    okl = lp is not None and unparse(lp.iter) == "enumerate(%s)" % \
-        formals(fn)[1]
-    i, entry = [chain(t) for t in lp.target.elts] if okl else (None, None)
-    node = fl.cfg.node_containing(pk)
+    okl = lp is not None and vals and vals[0] == ("index", ENTRIES)
+    # the byte offset of record i is i * size: an invariant of the loop,
+    # however the offset is computed
     from ..poly import Poly
-    off = fl.sym(a[2], node)
-    I = fl.symvar(i, node) if i else None
-    rep.check(okf and okl and I is not None and off == I * size, "C10-R3",
+    oko = False
+    off_txt = unparse(a[2])
+    if okl:
+        it0 = Interp(fn)
+        enum = it0._enum_index(lp)
+        if enum is not None:
+            I = Poly.atom(enum[0])
+            off0 = it0.sym(a[2], it0.cfg.node_containing(pk))
+            it = Interp(fn, candidates=eq(off0, I * size) if
+                        all(not x.startswith(("const:", "tuple("))
+                            for x in off0.atoms()) else [])
+            n2 = it.cfg.node_containing(pk)
+            oko = it.holds_at(n2, eq(it.sym(a[2], n2), I * size))
+    rep.check(okf and okl and oko, "C10-R3",
               inst, "record i is packed with RTE_PACK_STRING at byte i * %d "
               "(the format's size)" % size,
-              construct="record offset %r" % (off,), node=pk,
-              fail="records are packed at offset %r; the record format is "
-                   "%d bytes" % (off, size))
-    dd = fl.reaching(data, node) if data else []
-    okb = False
-    for d in dd:
-        if d.mode == "assign" and isinstance(d.value, ast.Call) and \
-                call_name(d.value)[0] == "bytearray":
-            okb = fl.sym(d.value.args[0], d.node) == fl.sym(
-                ast.parse("len(%s)" % formals(fn)[1], mode="eval").body,
-                d.node) * size
-    rep.check(okb and chain(write_call.args[1]) == data, "C10-R3", inst,
+              construct="record offset %s" % off_txt, node=pk,
+              fail="records are not packed at offset index * %d (the record "
+                   "format's size): offset expression %s" % (size, off_txt))
+    DATA = T.term(a[1], node)
+    okb = DATA[0] == "new" and DATA[2][0] == "call" and \
+        DATA[2][1] == ("global", "bytearray") and len(DATA[2][2]) == 1
+    if okb:
+        fl = Flow(fn)
+        sz = fl.sym(_with_parents(reify(DATA[2][2][0])), fl.cfg.entry)
+        want = fl.sym(_with_parents(ast.parse(
+            "len(%s)" % ps[1], mode="eval").body), fl.cfg.entry) * size
+        okb = sz == want
+    W = _argterms(T, write_call, program.get(CTRL + ".write"))
+    rep.check(okb and W.get("data") == DATA, "C10-R3", inst,
               "the staging data is %d bytes per entry and is what gets "
               "written" % size, construct="staging size", node=fn)
-    vals = [unparse(v) for v in a[3:]]
-    routev = chain(a[5]) if len(a) > 5 else None
-    okv = len(slots) == 5 and [s[1] for s in slots] == [2, 2, 4, 4, 4] and \
-        endian == "little" and vals[0] == i and vals[1] == "0" and \
-        vals[3:] == ["%s.key" % entry, "%s.mask" % entry]
+    okv = len(slots) == 5 and [s_[1] for s_ in slots] == [2, 2, 4, 4, 4] and \
+        endian == "little" and len(vals) == 5 and \
+        vals[0] == ("index", ENTRIES) and vals[1] == ("const", 0) and \
+        vals[3:] == [("attr", ENTRY, "key"), ("attr", ENTRY, "mask")]
     rep.check(okv, "C10-R3", inst, "record = (index:u16, 0:u16, route:u32, "
               "key:u32, mask:u32), little endian",
-              construct="record values %s" % vals, node=pk,
+              construct="record values %s" % [show(v) for v in vals],
+              node=pk,
               fail="the packed record is %s against format %r: key, mask or "
-                   "route land in the wrong field" % (vals, fmt))
-    # route word = OR of 1 << r over entry.route
+                   "route land in the wrong field" % (
+                       [show(v) for v in vals], fmt))
+    # route word = OR of 1 << r over entry.route, from 0 for every entry
     okr = False
-    rds = [d for d in fl.defs if d.var == routev]
-    init = [d for d in rds if d.mode == "assign"]
-    ors = [d for d in rds if d.mode == "aug"]
-    if len(init) == 1 and len(ors) == 1:
-        o = ors[0]
-        rl = o.node.ast._parent
-        okr = isinstance(init[0].value, ast.Constant) and \
-            init[0].value.value == 0 and isinstance(o.value.op, ast.BitOr) \
-            and isinstance(rl, ast.For) and \
-            unparse(rl.iter) == "%s.route" % entry and \
-            unparse(o.value.value) == "1 << %s" % chain(rl.target) and \
-            _inside(init[0].node.ast, lp)
+    if len(vals) == 5:
+        alts = alternatives(vals[2])
+        bit = ("binop", "LShift", ("const", 1),
+               ("elem", ("attr", ENTRY, "route")))
+        zero = [x for x in alts if x == ("const", 0)]
+        ors = [x for x in alts if x[0] == "binop" and x[1] == "BitOr" and
+               bit in (x[2], x[3])]
+        okr = len(zero) == 1 and len(ors) == 1 and len(alts) == 2
+        if okr:
+            other = ors[0][3] if ors[0][2] == bit else ors[0][2]
+            okr = all(y in (("const", 0), ("rec",), ors[0])
+                      for y in alternatives(other))
     rep.check(okr, "C10-R3", inst, "route word = OR over the entry's routes "
               "of 1 << route number, starting from 0 for every entry",
               construct="route word encoding", node=fn)
     # decoder
     up = program.get(MC + ":unpack_routing_table_entry")
-    ufl = Flow(up)
-    us = calls_in(up, "unpack")
+    U = Terms(up)
+    uenv = folder.module_env(MC)
+    us = calls_in(up, "unpack") + calls_in(up, "unpack_from")
     if len(us) != 1:
         raise AnalysisError("unpack_routing_table_entry: unpack")
-    asg = us[0]._parent
-    tg = [chain(t) for t in asg.targets[0].elts]
-    okd = unparse(us[0].args[0]) == "consts.RTE_PACK_STRING" and \
-        len(tg) == 5 and tg[2:] == ["route", "key", "mask"]
+    un = U.cfg.node_containing(us[0])
+    ut = U.term(us[0], un)
+    okd = _fold_any(folder, uenv, up, reify(U.term(us[0].args[0], un))) == \
+        fmt and U.term(us[0].args[1], un) == _P(formals(up)[0])
+    WORD, KEY, MASK = [U._comp(ut, i, 5) for i in (2, 3, 4)]
     rt = calls_in(up, "RoutingTableEntry")
-    okd = okd and len(rt) == 1 and [unparse(x) for x in rt[0].args][1:] == [
-        "key", "mask"]
+    okd = okd and len(rt) == 1
+    routes_t = None
+    if okd:
+        rn = U.cfg.node_containing(rt[0])
+        f = dict(zip(_nt_fields(program), rt[0].args))
+        for k in rt[0].keywords:
+            f[k.arg] = k.value
+        okd = U.term(f["key"], rn) == KEY and U.term(f["mask"], rn) == MASK
+        routes_t = U.term(f["route"], rn)
     rep.check(okd, "C10-R3", qual(up), "the decoder reads (_, free, route, "
               "key, mask) with the same format and rebuilds the entry from "
-              "route, key, mask", construct="decoder slots %s" % tg, node=up)
-    comps = [n for n in ast.walk(up) if isinstance(n, ast.SetComp)]
+              "the decoded routes and those key and mask fields",
+              construct="decoder slots", node=up)
     okc = False
     detail = ""
-    if len(comps) == 1:
-        sc = comps[0]
-        g = sc.generators[0]
-        rv = chain(g.target)
-        okc = unparse(g.iter).endswith("Routes") and len(g.ifs) == 1 and \
-            unparse(g.ifs[0]) in ("route >> %s & 1" % rv,
-                                  "route & 1 << %s" % rv) and \
-            chain(sc.elt) == rv
-        # the word tested is the unpacked one, with all 24 route bits intact
-        cn = ufl.cfg.node_containing(sc)
-        mask = 0xffffffff
-        cur = ufl.reaching("route", cn)
-        steps = 0
-        while okc and steps < 6:
-            steps += 1
-            if len(cur) != 1:
-                okc = False
-                break
-            d = cur[0]
-            if d.mode == "unpack":
-                break
-            if d.mode == "aug" and isinstance(d.value.op, ast.BitAnd):
-                m = _fold_int(folder, folder.module_env(MC), up,
-                              d.value.value)
-                if m is None:
-                    okc = False
-                    break
-                mask &= m
-                cur = ufl.reaching("route", d.node)
-                continue
-            okc = False
-        routes = folder.name("rig.routing_table.entries", "Routes")
-        bits = 0
-        for m in routes:
-            bits |= 1 << m.value
-        detail = "mask 0x%08x" % mask
-        okc = okc and (mask & bits) == bits and \
-            sorted(m.value for m in routes) == list(range(24))
-        rep.check(tg[2:3] == ["route"] and rt and unparse(rt[0].args[0]) ==
-                  chain(sc._parent.targets[0]) if isinstance(
-                      sc._parent, ast.Assign) else False, "C10-R3", qual(up),
-                  "the decoded route set is what the entry is rebuilt from",
-                  construct="decoder route use", node=up)
+    built = U.filtered(routes_t) if routes_t is not None else None
+    if built and len(built) == 1:
+        it, elt, conds = built[0]
+        routes_enum = folder.name("rig.routing_table.entries", "Routes")
+        is_routes = it[0] in ("attr", "global") and \
+            show(it).endswith("Routes")
+        okc = is_routes and elt == ("elem", it) and len(conds) == 1 and \
+            conds[0][1] is True
+        if okc:
+            bt = bit_test(conds[0][0])
+            okc = bt is not None and bt[1] == elt
+        if okc:
+            lay = provenance(reify(bt[0]),
+                             lambda e: _fold_int(folder, uenv, up, e))
+            bits = 0
+            for m_ in routes_enum:
+                bits |= 1 << m_.value
+            kept = 0
+            for p_ in lay.pieces:
+                if p_.src == unparse(reify(WORD)) and \
+                        p_.src_lo == p_.dst_lo:
+                    n_ = p_.n if p_.n is not None else 64
+                    kept |= ((1 << n_) - 1) << p_.dst_lo
+            detail = "bits tested 0x%08x" % (kept & 0xffffffff)
+            okc = (kept & bits) == bits and lay.const == 0 and \
+                sorted(m_.value for m_ in routes_enum) == list(range(24))
     rep.check(okc, "C10-R3", qual(up), "route r is reported iff bit r of the "
               "unmodified route word is set, for all 24 members of Routes "
               "(bits 0..23)", construct="route decoding %s" % detail,
@@ -633,51 +696,111 @@ def r3_layout(program, folder, rep, write_call):
                    "the route word as read (%s): some routes are lost when a "
                    "router is read back" % detail)
     inv = False
+    top = 0xff000000
+    forms = [mk_cmp("Eq", U._binop("BitAnd", WORD, ("const", top)),
+                    ("const", top)),
+             mk_cmp("Eq", ("binop", "RShift", WORD, ("const", 24)),
+                    ("const", 255)),
+             mk_cmp("Eq", U._binop("BitAnd", ("binop", "RShift", WORD,
+                                               ("const", 24)),
+                                   ("const", 255)), ("const", 255))]
     for r in returns_of(up):
         if isinstance(r.value, ast.Constant) and r.value.value is None:
-            f = ufl.facts(ufl.cfg.node_of(r))
-            inv = any(p and _is_invalid_test(folder, up, c) for c, p, _ in f)
+            f = U.all_facts(U.cfg.node_of(r))
+            inv = any(p and t in forms for t, p in f)
     rep.check(inv, "C10-R3", qual(up), "an entry whose top route byte is "
               "0xff is reported as unused", construct="invalid entry test",
               node=up)
-    rep.floor("C10-R3", 9)
+    rep.floor("C10-R3", 8)
 
 
-def _is_invalid_test(folder, fn, c):
-    t = unparse(c)
-    return t in ("route & 4278190080 == 4278190080",
-                 "route >> 24 == 255", "route >> 24 & 255 == 255")
+def _with_parents(e):
+    for n in ast.walk(e):
+        for c in ast.iter_child_nodes(n):
+            c._parent = n
+    ast.fix_missing_locations(e)
+    return e
 
 
 def r4_readback(program, folder, rep):
     fn = program.get(CTRL + ".get_routing_table_entries")
     inst = qual(fn)
-    fl = Flow(fn)
+    T = Terms(fn)
+    env = folder.module_env(MC)
     ps = formals(fn)
-    t = unparse(fn)
-    ok = "self.read_struct_field('sv', 'rtr_copy', %s, %s)" % (ps[1], ps[2])\
-        in t and "struct.calcsize(consts.RTE_PACK_STRING)" in t
-    rd = [c for c in calls_in(fn, "read")]
-    okr = len(rd) == 1 and unparse(rd[0].args[1]) in (
-        "consts.RTR_ENTRIES * read_size", "read_size * consts.RTR_ENTRIES") \
-        and [chain(a) for a in rd[0].args[2:4]] == [ps[1], ps[2]]
-    rep.check(ok and okr, "C10-R4", inst, "RTR_ENTRIES records of the "
+    fmt = folder.name(CONSTS, "RTE_PACK_STRING")
+    size = parse_format(fmt)[2]
+    rd = [c for c in calls_in(fn, "read") if chain(c.func.value) == "self"]
+    okr = len(rd) == 1
+    DATA = None
+    if okr:
+        R = _argterms(T, rd[0], program.get(CTRL + ".read"))
+        DATA = T.term(rd[0])
+        okr = R.get("x") == _P(ps[1]) and R.get("y") == _P(ps[2]) and \
+            _fold_int(folder, env, fn, reify(R["length_bytes"])) == \
+            folder.name(CONSTS, "RTR_ENTRIES") * size
+        bc = [c for c in calls_in(fn, "read_struct_field")
+              if T.term(c) == R.get("address")]
+        okr = okr and len(bc) == 1
+        if okr:
+            B = _argterms(T, bc[0], program.get(CTRL + ".read_struct_field"))
+            okr = B.get("struct_name") == ("const", "sv") and \
+                B.get("field_name") == ("const", "rtr_copy") and \
+                B.get("x") == _P(ps[1]) and B.get("y") == _P(ps[2])
+    rep.check(okr, "C10-R4", inst, "RTR_ENTRIES records of the "
               "format's size are read from sv.rtr_copy of that chip",
               construct="readback size", node=fn)
-    sl = [n for n in ast.walk(fn) if isinstance(n, ast.Subscript) and
-          isinstance(n.slice, ast.Slice)]
-    ks = sorted((unparse(s.slice.lower) if s.slice.lower else "",
-                 unparse(s.slice.upper) if s.slice.upper else "")
-                for s in sl)
-    aps = calls_in(fn, "append")
-    oks = ks == [("", "read_size"), ("read_size", "")] and len(aps) == 1 and \
-        unparse(aps[0].args[0]) == "unpack_routing_table_entry(entry)"
+    # the copy is cut into consecutive records, decoded in order
+    aps = [c for c in calls_in(fn, "append") if len(c.args) == 1]
+    oks = False
+    if len(aps) == 1 and DATA is not None:
+        n = T.cfg.node_containing(aps[0])
+        item = T.term(aps[0].args[0], n)
+        m = match(("call", ("global", "unpack_routing_table_entry"),
+                   (V("rec"),), ()), item)
+        if m is not None:
+            oks = _record_cut(folder, env, fn, m["rec"], DATA, size)
     rep.check(oks, "C10-R4", inst, "the copy is cut into consecutive "
               "records of that size, decoded in order",
-              construct="readback slicing %s" % ks, node=fn)
+              construct="readback slicing", node=fn)
     n = folder.name(CONSTS, "RTR_ENTRIES")
     rep.check(n == 1024, "C10-R4", CONSTS + ":RTR_ENTRIES", "the router has "
               "1024 entries", construct="RTR_ENTRIES %r" % n)
+
+
+def _record_cut(folder, env, fn, rec, DATA, size):
+    """The two ways of walking a buffer record by record: (a) peel the first
+    ``size`` bytes off the remainder until it is empty; (b) slice at
+    start = 0, size, 2*size ... below len(buffer)."""
+    def const(t):
+        return _fold_int(folder, env, fn, reify(t))
+    if rec[0] != "item" or rec[2][0] != "slice":
+        return False
+    base, (_, lo, hi, st) = rec[1], rec[2]
+    if st != ("const", None):
+        return False
+    # (a)  data[:S] of data := phi(read, data[S:])
+    if lo == ("const", None) and const(hi) == size:
+        alts = alternatives(base)
+        rest = [x for x in alts if x != DATA]
+        return DATA in alts and len(rest) == 1 and rest[0][0] == "item" and \
+            rest[0][2][0] == "slice" and const(rest[0][2][1]) == size and \
+            rest[0][2][2] == ("const", None) and \
+            all(y in (DATA, rest[0], ("rec",))
+                for y in alternatives(rest[0][1]))
+    # (b)  data[s:s + S] for s in range(0, len(data), S)
+    if base == DATA and lo[0] == "elem":
+        m = match(("call", ("global", "range"), (V("a"), V("b"), V("c")), ()),
+                  lo[1])
+        if m is None:
+            return False
+        if hi[0] != "binop" or hi[1] != "Add" or lo not in (hi[2], hi[3]):
+            return False
+        step = hi[3] if hi[2] == lo else hi[2]
+        return const(m["a"]) == 0 and const(m["c"]) == size and \
+            const(step) == size and \
+            m["b"] == ("call", ("global", "len"), (DATA,), ())
+    return False
 
 
 def check(program, rep):
